@@ -89,6 +89,76 @@ pub fn mul_bound_ok(r: &TwoFloat, x: &TwoFloat, yh: f64, yl: f64, num: u64) -> b
 #[derive(Clone, Copy, PartialEq)]
 pub enum F { Op, Assign }
 
+// ---- (c) mechanised for Algorithm 9: the 2u^2 bound per exponent gap of the multiplicand's words, with ghost values.
+// new_mul and fast_two_sum are replaced by their (proved) contracts and record their arguments/results; the one
+// inexact operation left is cl3 = fma(xl, y, cl1).  With delta := xl*y + cl1 - cl3 computed exactly (integer product
+// of the significands, 256-bit window anchored at the unit of xl*y) the exactness contracts give
+// result - x*y = -delta, and the obligation is |delta| * 2^105 <= |zh + zl|.
+use core::sync::atomic::{AtomicU64, Ordering::Relaxed};
+static G9_CH: AtomicU64 = AtomicU64::new(0);
+static G9_CL: AtomicU64 = AtomicU64::new(0);
+static G9_FA: AtomicU64 = AtomicU64::new(0);
+static G9_FB: AtomicU64 = AtomicU64::new(0);
+#[cfg(kani)]
+pub fn g9_new_mul(a: f64, b: f64) -> TwoFloat {
+    let r = s_new_mul_exact(a, b);
+    G9_CH.store(r.hi.to_bits(), Relaxed); G9_CL.store(r.lo.to_bits(), Relaxed);
+    r
+}
+#[cfg(kani)]
+pub fn g9_fts(a: f64, b: f64) -> TwoFloat {
+    let r = s_fts(a, b);
+    G9_FA.store(a.to_bits(), Relaxed); G9_FB.store(b.to_bits(), Relaxed);
+    r
+}
+/// gap = eexp(x.hi) - eexp(x.lo) (53..=112), 1000: x.lo == 0 or farther than 112 binades below
+pub fn acc9_case(gap: i32) {
+    use super::spec::win::W;
+    let x = any_valid(); let y = any_f64!();
+    vassume!(in450(x.hi) && in450(y) && x.hi != 0.0 && y != 0.0);
+    let g = eexp(x.hi) - eexp(x.lo);
+    if gap == 1000 { vassume!(x.lo == 0.0 || g > 112) } else { vassume!(x.lo != 0.0 && g == gap) }
+    let r = &x * &y;
+    vassert!(valid(r.hi, r.lo), "result is a valid TwoFloat");
+    #[cfg(kani)]
+    {
+        let ch = f64::from_bits(G9_CH.load(Relaxed)); let cl1 = f64::from_bits(G9_CL.load(Relaxed));
+        let fa = f64::from_bits(G9_FA.load(Relaxed)); let cl3 = f64::from_bits(G9_FB.load(Relaxed));
+        vassert!(fa == ch, "structure: the final fast_two_sum is applied to (ch, cl3)");
+        if x.lo == 0.0 {
+            vassert!(cl3 == cl1, "zero low word: cl3 == cl1, no rounding error");
+        } else {
+            // exact xl * y in units of 2^(A2 - 1075), A2 = e(xl) + e(y) - 1075
+            let (nl, ml, el) = fld(x.lo); let (ny, my, ey) = fld(y);
+            let p2 = (ml as u128) * (my as u128);
+            let a2 = el + ey - 1075;
+            let mut pw = W([p2 as u64, (p2 >> 64) as u64, 0, 0]);
+            if nl != ny { pw = pw.neg(); }
+            match (W::at(cl1, a2, 190), W::at(cl3, a2, 190)) {
+                (Some(c1), Some(c3)) => {
+                    let delta = pw.add(c1).sub(c3);
+                    let dmag = delta.abs();
+                    let small = dmag.0[2] == 0 && dmag.0[3] == 0 && (dmag.0[1] >> 20) == 0;
+                    vassert!(small, "delta is a rounding error (fits 84 bits at the unit of xl*y)");
+                    let ok = match (W::at(r.hi, a2, 190), W::at(r.lo, a2, 190)) {
+                        (Some(zh), Some(zl)) => dmag.shl(105).le(zh.add(zl).add(delta).abs()),
+                        (None, _) => eexp(r.hi) - a2 > 190,
+                        _ => false,
+                    };
+                    vassert!(ok, "|delta| * 2^105 <= |result + delta| = |x*y|  (relative error <= 2 * 2^-106)");
+                }
+                _ => {
+                    // cl1 / cl3 not representable in the window: only possible in the far case, where the fma returns cl1
+                    vassert!(gap == 1000 && cl3 == cl1, "far case: cl3 == cl1");
+                }
+            }
+        }
+    }
+    #[cfg(not(kani))]
+    { vassert!(mul_bound_ok(&r, &x, y, 0.0, 2), "TwoFloat * f64 within 2 * 2^-106 of the exact product"); }
+    vcover!(r.lo != 0.0, "non-trivial result reachable");
+}
+
 // ---- witness search / bounded stand-in for the product bounds: domain B(12) (12-bit significands, high words
 // in [2^-30, 2^30], low words 0 or >= 2^-90): every partial product is then exact in f64 and the exact product
 // is their sum in a 512-bit window with unit 2^-260
@@ -183,6 +253,77 @@ harnesses! {
     #[kani::solver(cvc5)] fn alg9_mul_assign_f64() { mul_f64_case(false, F::Assign) }
     #[kani::solver(cvc5)] fn alg12_mul_tf_tf() { mul_tf_case(F::Op) }
     #[kani::solver(cvc5)] fn alg12_mul_assign_tf() { mul_tf_case(F::Assign) }
+    // ---- generated: 2u^2 bound of Algorithm 9 per gap between the exponent fields of the multiplicand's words
+    #[kani::solver(kissat)] #[kani::unwind(6)] #[kani::stub(crate::arithmetic::fma, fma_fixed)] #[kani::stub(TwoFloat::new_mul, g9_new_mul)] #[kani::stub(crate::arithmetic::fast_two_sum, g9_fts)] fn acc9_gap_53() { acc9_case(53) }
+    #[kani::solver(kissat)] #[kani::unwind(6)] #[kani::stub(crate::arithmetic::fma, fma_fixed)] #[kani::stub(TwoFloat::new_mul, g9_new_mul)] #[kani::stub(crate::arithmetic::fast_two_sum, g9_fts)] fn acc9_gap_54() { acc9_case(54) }
+    #[kani::solver(kissat)] #[kani::unwind(6)] #[kani::stub(crate::arithmetic::fma, fma_fixed)] #[kani::stub(TwoFloat::new_mul, g9_new_mul)] #[kani::stub(crate::arithmetic::fast_two_sum, g9_fts)] fn acc9_gap_55() { acc9_case(55) }
+    #[kani::solver(kissat)] #[kani::unwind(6)] #[kani::stub(crate::arithmetic::fma, fma_fixed)] #[kani::stub(TwoFloat::new_mul, g9_new_mul)] #[kani::stub(crate::arithmetic::fast_two_sum, g9_fts)] fn acc9_gap_56() { acc9_case(56) }
+    #[kani::solver(kissat)] #[kani::unwind(6)] #[kani::stub(crate::arithmetic::fma, fma_fixed)] #[kani::stub(TwoFloat::new_mul, g9_new_mul)] #[kani::stub(crate::arithmetic::fast_two_sum, g9_fts)] fn acc9_gap_57() { acc9_case(57) }
+    #[kani::solver(kissat)] #[kani::unwind(6)] #[kani::stub(crate::arithmetic::fma, fma_fixed)] #[kani::stub(TwoFloat::new_mul, g9_new_mul)] #[kani::stub(crate::arithmetic::fast_two_sum, g9_fts)] fn acc9_gap_58() { acc9_case(58) }
+    #[kani::solver(kissat)] #[kani::unwind(6)] #[kani::stub(crate::arithmetic::fma, fma_fixed)] #[kani::stub(TwoFloat::new_mul, g9_new_mul)] #[kani::stub(crate::arithmetic::fast_two_sum, g9_fts)] fn acc9_gap_59() { acc9_case(59) }
+    #[kani::solver(kissat)] #[kani::unwind(6)] #[kani::stub(crate::arithmetic::fma, fma_fixed)] #[kani::stub(TwoFloat::new_mul, g9_new_mul)] #[kani::stub(crate::arithmetic::fast_two_sum, g9_fts)] fn acc9_gap_60() { acc9_case(60) }
+    #[kani::solver(kissat)] #[kani::unwind(6)] #[kani::stub(crate::arithmetic::fma, fma_fixed)] #[kani::stub(TwoFloat::new_mul, g9_new_mul)] #[kani::stub(crate::arithmetic::fast_two_sum, g9_fts)] fn acc9_gap_61() { acc9_case(61) }
+    #[kani::solver(kissat)] #[kani::unwind(6)] #[kani::stub(crate::arithmetic::fma, fma_fixed)] #[kani::stub(TwoFloat::new_mul, g9_new_mul)] #[kani::stub(crate::arithmetic::fast_two_sum, g9_fts)] fn acc9_gap_62() { acc9_case(62) }
+    #[kani::solver(kissat)] #[kani::unwind(6)] #[kani::stub(crate::arithmetic::fma, fma_fixed)] #[kani::stub(TwoFloat::new_mul, g9_new_mul)] #[kani::stub(crate::arithmetic::fast_two_sum, g9_fts)] fn acc9_gap_63() { acc9_case(63) }
+    #[kani::solver(kissat)] #[kani::unwind(6)] #[kani::stub(crate::arithmetic::fma, fma_fixed)] #[kani::stub(TwoFloat::new_mul, g9_new_mul)] #[kani::stub(crate::arithmetic::fast_two_sum, g9_fts)] fn acc9_gap_64() { acc9_case(64) }
+    #[kani::solver(kissat)] #[kani::unwind(6)] #[kani::stub(crate::arithmetic::fma, fma_fixed)] #[kani::stub(TwoFloat::new_mul, g9_new_mul)] #[kani::stub(crate::arithmetic::fast_two_sum, g9_fts)] fn acc9_gap_65() { acc9_case(65) }
+    #[kani::solver(kissat)] #[kani::unwind(6)] #[kani::stub(crate::arithmetic::fma, fma_fixed)] #[kani::stub(TwoFloat::new_mul, g9_new_mul)] #[kani::stub(crate::arithmetic::fast_two_sum, g9_fts)] fn acc9_gap_66() { acc9_case(66) }
+    #[kani::solver(kissat)] #[kani::unwind(6)] #[kani::stub(crate::arithmetic::fma, fma_fixed)] #[kani::stub(TwoFloat::new_mul, g9_new_mul)] #[kani::stub(crate::arithmetic::fast_two_sum, g9_fts)] fn acc9_gap_67() { acc9_case(67) }
+    #[kani::solver(kissat)] #[kani::unwind(6)] #[kani::stub(crate::arithmetic::fma, fma_fixed)] #[kani::stub(TwoFloat::new_mul, g9_new_mul)] #[kani::stub(crate::arithmetic::fast_two_sum, g9_fts)] fn acc9_gap_68() { acc9_case(68) }
+    #[kani::solver(kissat)] #[kani::unwind(6)] #[kani::stub(crate::arithmetic::fma, fma_fixed)] #[kani::stub(TwoFloat::new_mul, g9_new_mul)] #[kani::stub(crate::arithmetic::fast_two_sum, g9_fts)] fn acc9_gap_69() { acc9_case(69) }
+    #[kani::solver(kissat)] #[kani::unwind(6)] #[kani::stub(crate::arithmetic::fma, fma_fixed)] #[kani::stub(TwoFloat::new_mul, g9_new_mul)] #[kani::stub(crate::arithmetic::fast_two_sum, g9_fts)] fn acc9_gap_70() { acc9_case(70) }
+    #[kani::solver(kissat)] #[kani::unwind(6)] #[kani::stub(crate::arithmetic::fma, fma_fixed)] #[kani::stub(TwoFloat::new_mul, g9_new_mul)] #[kani::stub(crate::arithmetic::fast_two_sum, g9_fts)] fn acc9_gap_71() { acc9_case(71) }
+    #[kani::solver(kissat)] #[kani::unwind(6)] #[kani::stub(crate::arithmetic::fma, fma_fixed)] #[kani::stub(TwoFloat::new_mul, g9_new_mul)] #[kani::stub(crate::arithmetic::fast_two_sum, g9_fts)] fn acc9_gap_72() { acc9_case(72) }
+    #[kani::solver(kissat)] #[kani::unwind(6)] #[kani::stub(crate::arithmetic::fma, fma_fixed)] #[kani::stub(TwoFloat::new_mul, g9_new_mul)] #[kani::stub(crate::arithmetic::fast_two_sum, g9_fts)] fn acc9_gap_73() { acc9_case(73) }
+    #[kani::solver(kissat)] #[kani::unwind(6)] #[kani::stub(crate::arithmetic::fma, fma_fixed)] #[kani::stub(TwoFloat::new_mul, g9_new_mul)] #[kani::stub(crate::arithmetic::fast_two_sum, g9_fts)] fn acc9_gap_74() { acc9_case(74) }
+    #[kani::solver(kissat)] #[kani::unwind(6)] #[kani::stub(crate::arithmetic::fma, fma_fixed)] #[kani::stub(TwoFloat::new_mul, g9_new_mul)] #[kani::stub(crate::arithmetic::fast_two_sum, g9_fts)] fn acc9_gap_75() { acc9_case(75) }
+    #[kani::solver(kissat)] #[kani::unwind(6)] #[kani::stub(crate::arithmetic::fma, fma_fixed)] #[kani::stub(TwoFloat::new_mul, g9_new_mul)] #[kani::stub(crate::arithmetic::fast_two_sum, g9_fts)] fn acc9_gap_76() { acc9_case(76) }
+    #[kani::solver(kissat)] #[kani::unwind(6)] #[kani::stub(crate::arithmetic::fma, fma_fixed)] #[kani::stub(TwoFloat::new_mul, g9_new_mul)] #[kani::stub(crate::arithmetic::fast_two_sum, g9_fts)] fn acc9_gap_77() { acc9_case(77) }
+    #[kani::solver(kissat)] #[kani::unwind(6)] #[kani::stub(crate::arithmetic::fma, fma_fixed)] #[kani::stub(TwoFloat::new_mul, g9_new_mul)] #[kani::stub(crate::arithmetic::fast_two_sum, g9_fts)] fn acc9_gap_78() { acc9_case(78) }
+    #[kani::solver(kissat)] #[kani::unwind(6)] #[kani::stub(crate::arithmetic::fma, fma_fixed)] #[kani::stub(TwoFloat::new_mul, g9_new_mul)] #[kani::stub(crate::arithmetic::fast_two_sum, g9_fts)] fn acc9_gap_79() { acc9_case(79) }
+    #[kani::solver(kissat)] #[kani::unwind(6)] #[kani::stub(crate::arithmetic::fma, fma_fixed)] #[kani::stub(TwoFloat::new_mul, g9_new_mul)] #[kani::stub(crate::arithmetic::fast_two_sum, g9_fts)] fn acc9_gap_80() { acc9_case(80) }
+    #[kani::solver(kissat)] #[kani::unwind(6)] #[kani::stub(crate::arithmetic::fma, fma_fixed)] #[kani::stub(TwoFloat::new_mul, g9_new_mul)] #[kani::stub(crate::arithmetic::fast_two_sum, g9_fts)] fn acc9_gap_81() { acc9_case(81) }
+    #[kani::solver(kissat)] #[kani::unwind(6)] #[kani::stub(crate::arithmetic::fma, fma_fixed)] #[kani::stub(TwoFloat::new_mul, g9_new_mul)] #[kani::stub(crate::arithmetic::fast_two_sum, g9_fts)] fn acc9_gap_82() { acc9_case(82) }
+    #[kani::solver(kissat)] #[kani::unwind(6)] #[kani::stub(crate::arithmetic::fma, fma_fixed)] #[kani::stub(TwoFloat::new_mul, g9_new_mul)] #[kani::stub(crate::arithmetic::fast_two_sum, g9_fts)] fn acc9_gap_83() { acc9_case(83) }
+    #[kani::solver(kissat)] #[kani::unwind(6)] #[kani::stub(crate::arithmetic::fma, fma_fixed)] #[kani::stub(TwoFloat::new_mul, g9_new_mul)] #[kani::stub(crate::arithmetic::fast_two_sum, g9_fts)] fn acc9_gap_84() { acc9_case(84) }
+    #[kani::solver(kissat)] #[kani::unwind(6)] #[kani::stub(crate::arithmetic::fma, fma_fixed)] #[kani::stub(TwoFloat::new_mul, g9_new_mul)] #[kani::stub(crate::arithmetic::fast_two_sum, g9_fts)] fn acc9_gap_85() { acc9_case(85) }
+    #[kani::solver(kissat)] #[kani::unwind(6)] #[kani::stub(crate::arithmetic::fma, fma_fixed)] #[kani::stub(TwoFloat::new_mul, g9_new_mul)] #[kani::stub(crate::arithmetic::fast_two_sum, g9_fts)] fn acc9_gap_86() { acc9_case(86) }
+    #[kani::solver(kissat)] #[kani::unwind(6)] #[kani::stub(crate::arithmetic::fma, fma_fixed)] #[kani::stub(TwoFloat::new_mul, g9_new_mul)] #[kani::stub(crate::arithmetic::fast_two_sum, g9_fts)] fn acc9_gap_87() { acc9_case(87) }
+    #[kani::solver(kissat)] #[kani::unwind(6)] #[kani::stub(crate::arithmetic::fma, fma_fixed)] #[kani::stub(TwoFloat::new_mul, g9_new_mul)] #[kani::stub(crate::arithmetic::fast_two_sum, g9_fts)] fn acc9_gap_88() { acc9_case(88) }
+    #[kani::solver(kissat)] #[kani::unwind(6)] #[kani::stub(crate::arithmetic::fma, fma_fixed)] #[kani::stub(TwoFloat::new_mul, g9_new_mul)] #[kani::stub(crate::arithmetic::fast_two_sum, g9_fts)] fn acc9_gap_89() { acc9_case(89) }
+    #[kani::solver(kissat)] #[kani::unwind(6)] #[kani::stub(crate::arithmetic::fma, fma_fixed)] #[kani::stub(TwoFloat::new_mul, g9_new_mul)] #[kani::stub(crate::arithmetic::fast_two_sum, g9_fts)] fn acc9_gap_90() { acc9_case(90) }
+    #[kani::solver(kissat)] #[kani::unwind(6)] #[kani::stub(crate::arithmetic::fma, fma_fixed)] #[kani::stub(TwoFloat::new_mul, g9_new_mul)] #[kani::stub(crate::arithmetic::fast_two_sum, g9_fts)] fn acc9_gap_91() { acc9_case(91) }
+    #[kani::solver(kissat)] #[kani::unwind(6)] #[kani::stub(crate::arithmetic::fma, fma_fixed)] #[kani::stub(TwoFloat::new_mul, g9_new_mul)] #[kani::stub(crate::arithmetic::fast_two_sum, g9_fts)] fn acc9_gap_92() { acc9_case(92) }
+    #[kani::solver(kissat)] #[kani::unwind(6)] #[kani::stub(crate::arithmetic::fma, fma_fixed)] #[kani::stub(TwoFloat::new_mul, g9_new_mul)] #[kani::stub(crate::arithmetic::fast_two_sum, g9_fts)] fn acc9_gap_93() { acc9_case(93) }
+    #[kani::solver(kissat)] #[kani::unwind(6)] #[kani::stub(crate::arithmetic::fma, fma_fixed)] #[kani::stub(TwoFloat::new_mul, g9_new_mul)] #[kani::stub(crate::arithmetic::fast_two_sum, g9_fts)] fn acc9_gap_94() { acc9_case(94) }
+    #[kani::solver(kissat)] #[kani::unwind(6)] #[kani::stub(crate::arithmetic::fma, fma_fixed)] #[kani::stub(TwoFloat::new_mul, g9_new_mul)] #[kani::stub(crate::arithmetic::fast_two_sum, g9_fts)] fn acc9_gap_95() { acc9_case(95) }
+    #[kani::solver(kissat)] #[kani::unwind(6)] #[kani::stub(crate::arithmetic::fma, fma_fixed)] #[kani::stub(TwoFloat::new_mul, g9_new_mul)] #[kani::stub(crate::arithmetic::fast_two_sum, g9_fts)] fn acc9_gap_96() { acc9_case(96) }
+    #[kani::solver(kissat)] #[kani::unwind(6)] #[kani::stub(crate::arithmetic::fma, fma_fixed)] #[kani::stub(TwoFloat::new_mul, g9_new_mul)] #[kani::stub(crate::arithmetic::fast_two_sum, g9_fts)] fn acc9_gap_97() { acc9_case(97) }
+    #[kani::solver(kissat)] #[kani::unwind(6)] #[kani::stub(crate::arithmetic::fma, fma_fixed)] #[kani::stub(TwoFloat::new_mul, g9_new_mul)] #[kani::stub(crate::arithmetic::fast_two_sum, g9_fts)] fn acc9_gap_98() { acc9_case(98) }
+    #[kani::solver(kissat)] #[kani::unwind(6)] #[kani::stub(crate::arithmetic::fma, fma_fixed)] #[kani::stub(TwoFloat::new_mul, g9_new_mul)] #[kani::stub(crate::arithmetic::fast_two_sum, g9_fts)] fn acc9_gap_99() { acc9_case(99) }
+    #[kani::solver(kissat)] #[kani::unwind(6)] #[kani::stub(crate::arithmetic::fma, fma_fixed)] #[kani::stub(TwoFloat::new_mul, g9_new_mul)] #[kani::stub(crate::arithmetic::fast_two_sum, g9_fts)] fn acc9_gap_100() { acc9_case(100) }
+    #[kani::solver(kissat)] #[kani::unwind(6)] #[kani::stub(crate::arithmetic::fma, fma_fixed)] #[kani::stub(TwoFloat::new_mul, g9_new_mul)] #[kani::stub(crate::arithmetic::fast_two_sum, g9_fts)] fn acc9_gap_101() { acc9_case(101) }
+    #[kani::solver(kissat)] #[kani::unwind(6)] #[kani::stub(crate::arithmetic::fma, fma_fixed)] #[kani::stub(TwoFloat::new_mul, g9_new_mul)] #[kani::stub(crate::arithmetic::fast_two_sum, g9_fts)] fn acc9_gap_102() { acc9_case(102) }
+    #[kani::solver(kissat)] #[kani::unwind(6)] #[kani::stub(crate::arithmetic::fma, fma_fixed)] #[kani::stub(TwoFloat::new_mul, g9_new_mul)] #[kani::stub(crate::arithmetic::fast_two_sum, g9_fts)] fn acc9_gap_103() { acc9_case(103) }
+    #[kani::solver(kissat)] #[kani::unwind(6)] #[kani::stub(crate::arithmetic::fma, fma_fixed)] #[kani::stub(TwoFloat::new_mul, g9_new_mul)] #[kani::stub(crate::arithmetic::fast_two_sum, g9_fts)] fn acc9_gap_104() { acc9_case(104) }
+    #[kani::solver(kissat)] #[kani::unwind(6)] #[kani::stub(crate::arithmetic::fma, fma_fixed)] #[kani::stub(TwoFloat::new_mul, g9_new_mul)] #[kani::stub(crate::arithmetic::fast_two_sum, g9_fts)] fn acc9_gap_105() { acc9_case(105) }
+    #[kani::solver(kissat)] #[kani::unwind(6)] #[kani::stub(crate::arithmetic::fma, fma_fixed)] #[kani::stub(TwoFloat::new_mul, g9_new_mul)] #[kani::stub(crate::arithmetic::fast_two_sum, g9_fts)] fn acc9_gap_106() { acc9_case(106) }
+    #[kani::solver(kissat)] #[kani::unwind(6)] #[kani::stub(crate::arithmetic::fma, fma_fixed)] #[kani::stub(TwoFloat::new_mul, g9_new_mul)] #[kani::stub(crate::arithmetic::fast_two_sum, g9_fts)] fn acc9_gap_107() { acc9_case(107) }
+    #[kani::solver(kissat)] #[kani::unwind(6)] #[kani::stub(crate::arithmetic::fma, fma_fixed)] #[kani::stub(TwoFloat::new_mul, g9_new_mul)] #[kani::stub(crate::arithmetic::fast_two_sum, g9_fts)] fn acc9_gap_108() { acc9_case(108) }
+    #[kani::solver(kissat)] #[kani::unwind(6)] #[kani::stub(crate::arithmetic::fma, fma_fixed)] #[kani::stub(TwoFloat::new_mul, g9_new_mul)] #[kani::stub(crate::arithmetic::fast_two_sum, g9_fts)] fn acc9_gap_109() { acc9_case(109) }
+    #[kani::solver(kissat)] #[kani::unwind(6)] #[kani::stub(crate::arithmetic::fma, fma_fixed)] #[kani::stub(TwoFloat::new_mul, g9_new_mul)] #[kani::stub(crate::arithmetic::fast_two_sum, g9_fts)] fn acc9_gap_110() { acc9_case(110) }
+    #[kani::solver(kissat)] #[kani::unwind(6)] #[kani::stub(crate::arithmetic::fma, fma_fixed)] #[kani::stub(TwoFloat::new_mul, g9_new_mul)] #[kani::stub(crate::arithmetic::fast_two_sum, g9_fts)] fn acc9_gap_111() { acc9_case(111) }
+    #[kani::solver(kissat)] #[kani::unwind(6)] #[kani::stub(crate::arithmetic::fma, fma_fixed)] #[kani::stub(TwoFloat::new_mul, g9_new_mul)] #[kani::stub(crate::arithmetic::fast_two_sum, g9_fts)] fn acc9_gap_112() { acc9_case(112) }
+    #[kani::solver(kissat)] #[kani::unwind(6)] #[kani::stub(crate::arithmetic::fma, fma_fixed)] #[kani::stub(TwoFloat::new_mul, g9_new_mul)] #[kani::stub(crate::arithmetic::fast_two_sum, g9_fts)] fn acc9_far() { acc9_case(1000) }
+    /// the gap cases exhaust the domain: a valid x with non-zero low word and high word in [2^-450, 2^450] has gap >= 53
+    #[kani::solver(kissat)]
+    fn acc9_cases_cover() {
+        let x = any_valid();
+        vassume!(in450(x.hi) && x.hi != 0.0);
+        let g = eexp(x.hi) - eexp(x.lo);
+        vassert!(x.lo == 0.0 || g >= 53, "non-zero low word of a valid pair lies at least 53 binades below the high word");
+    }
+
     // witness search / bounded stand-ins B(12): the product bound itself on the real operators
     #[kani::solver(kissat)] #[kani::unwind(70)] fn bound_mul_tf_f64() { bound_mul_f64_case(false, F::Op) }
     #[kani::solver(kissat)] #[kani::unwind(70)] fn bound_mul_f64_tf() { bound_mul_f64_case(true, F::Op) }
